@@ -96,7 +96,13 @@ def negative_strategy():
             "kind": st.sampled_from(["random", "wrong_length", "other_key", "wrong_magic", "short_plain", "zeros", "too_big"]),
             "data": st.binary(min_size=300, max_size=300),
             "length": st.integers(0, 300),
-            "magic": S.u32.filter(lambda m: m != 0xBEEF),
+            # near misses of the magic: every single-bit flip, wrong halves, byte swaps - and arbitrary values
+            "magic": st.one_of(
+                st.integers(0, 31).map(lambda i: 0xBEEF ^ (1 << i)),
+                st.sampled_from([0xBEEF0000, 0xBEEFBEEF, 0xEFBE, 0xEFBE0000, 0xDEADBEEF, 0xFFFFBEEF, 0x8000BEEF, 0xBEEE, 0xBEF0, 0xBE, 0xEF, 0xBEEF00]),
+                st.integers(1, 0xFFFF).map(lambda h: (h << 16) | 0xBEEF),
+                S.u32,
+            ).filter(lambda m: m != 0xBEEF),
             "short": st.integers(0, 58),
         }
     )
